@@ -66,6 +66,10 @@ add("C09","model_checking","stateless exploration of the real server under a con
     "The real Backend behind the real tower-lsp router is driven in-process: the harness polls every handler future by hand (woken tasks in FIFO order as FuturesUnordered does), holds every workspace/configuration answer, turns every blocking-pool file-I/O completion into an explicit event (single gated blocking thread) and controls admission (at most 4 in flight). Sequential histories: every applicable sequence up to depth 3 (4 thorough) over 14 operations on a saved and an unsaved document. Concurrent batches: every ordered pair (selected triples thorough) after several prefixes, every schedule with <= 1 (2) deviations from first-come-first-served delivery, one more for same-document pairs. Oracle at quiescence: last publishDiagnostics per open document == fresh reference lint of the client's newest text under the current dictionaries and configuration; closed/deleted documents empty. A failing schedule is replayed and must reproduce with the identical event trace before it is reported.",
     "deviation and depth bounds; only external events are reordered (each explored schedule is one the real server can exhibit); HashMap iteration order inside the server is not owned (replay divergences are counted and skipped, never reported)", "§4.C09", "E3")
 
+add("C07","model_checking","stateless exploration of add-word/edit/restart histories on the real server with enumeration of every crash point and torn write of the dictionary save path; explicit-state exploration of import sequences on harper_wasm::Linter",
+    "All applicable histories up to depth 3 (4 thorough) over {open, change, HarperAddToUserDict, HarperAddToFileDict with 5 Unicode words on two documents, server restart} on the real Backend: after every step the real load_dict of each dictionary file equals the set of words added, and the diagnostics of every open document equal a fresh reference lint (file words only in their file). For every history that ends in an add command the save is executed one I/O completion at a time; the on-disk image after every completion, and every byte cut of every in-place append (same inode), is recovered with the real loader: no acknowledged word lost, nothing but (a prefix of) the word in flight gained. harper_wasm::Linter: all import_words sequences up to length 2 (3) over 8 words incl. case variants.",
+    "crash = process death between/inside write calls of the blocking pool; power-loss reordering is outside the bound; word alphabet", "§4.C07", "E3")
+
 claimed = [C[k] for k in sorted(C)]
 na = [dict(property_id=p["id"], reason="check under construction in this build phase; not claimed until its command exists and passes on the unchanged tree")
       for p in props if p["id"] not in C]
@@ -76,7 +80,7 @@ m = dict(version=1,
              baseline_off_cmd="cd /repo && RUSTUP_TOOLCHAIN=stable-x86_64-unknown-linux-gnu cargo nextest run --workspace --no-fail-fast --offline",
              source_commits=[], add_only=True),
   engines=[dict(name="E1 text-space explorer", path="/verif/harness/hv/src/{pool,spaces,sweep,small}.rs", serves_properties=[k for k in sorted(C) if C[k]["engine"]=="E1"], kind_free_text="exhaustive enumeration of finite input spaces over the real parsers/linters in watchdog-supervised worker processes"),
-           dict(name="E3 language-server explorer", path="/verif/harness/hv/src/{e3,c09}.rs", serves_properties=[k for k in sorted(C) if C[k]["engine"]=="E3"], kind_free_text="controlled executor over the unmodified harper-ls Backend and tower-lsp router: hand-polled handler futures, held client answers, gated blocking pool, deviation-bounded schedule enumeration with replay"),
+           dict(name="E3 language-server explorer", path="/verif/harness/hv/src/{e3,c07,c09}.rs", serves_properties=[k for k in sorted(C) if C[k]["engine"]=="E3"], kind_free_text="controlled executor over the unmodified harper-ls Backend and tower-lsp router: hand-polled handler futures, held client answers, gated blocking pool, deviation-bounded schedule enumeration with replay"),
            dict(name="E2 history explorer", path="/verif/harness/hv/src/{e2,c11,c14,c19}.rs", serves_properties=[k for k in sorted(C) if C[k]["engine"]=="E2"], kind_free_text="breadth-first enumeration of operation histories on long-lived real objects against reference models")],
   checks=claimed, not_applicable=na,
   notes="Exit codes: 0 held (open known findings printed as KNOWN-FINDING lines), 1 violation (VIOLATION lines), 2 machinery failure. Known findings: /verif/known_findings.txt.")
